@@ -253,6 +253,31 @@ def run(ctx):
                 kdiff += 1
                 ctx.broken.append(('K09 correspondence (registration)', 'case %s: model %s real %s' % (json.dumps(c), got, r['registered'])))
             k += 1
+    # ---- the imports the extractor reads from the script, against the script's syntax tree read here: every name bound by a top-level
+    # import statement, once (first occurrence), with the number of its statement
+    for c, r in zip(cases, rex):
+        if 'imps' not in r:
+            continue
+        tree = ast.parse(c['files'][c['script']])
+        want, seen = [], set()
+        for idx, node in enumerate(tree.body):
+            if isinstance(node, ast.Import):
+                for a in node.names:
+                    if a.name not in seen:
+                        seen.add(a.name)
+                        want.append([a.name, a.asname or a.name, idx])
+            elif isinstance(node, ast.ImportFrom) and node.level == 0:
+                for a in node.names:
+                    full = node.module + '.' + a.name
+                    if a.name != '*' and full not in seen:
+                        seen.add(full)
+                        want.append([full, a.asname or a.name, idx])
+        if [list(x) for x in r['imps']] != want:
+            miss = [x for x in want if x not in [list(y) for y in r['imps']]]
+            extra = [list(y) for y in r['imps'] if list(y) not in want]
+            ctx.fail('the imports read from the script are not the names its top-level import statements bind',
+                     {'finding_class': None, 'prof_mod': c['prof_mod'], 'missing': miss[:6], 'unexpected': extra[:6], 'source': c['files'][c['script']][:1500]})
+            break
     # ---- K09 (expansion): the names the real code derives from a selected package = Model.Select.namesUnder over Model.FS.walk of the same tree
     if getattr(ctx, 'driver_ok', True):
         import c18
@@ -301,6 +326,8 @@ def run(ctx):
               crafted([('from klass import HK2', 'HK2().plain(1)'), ('import klass', 'klass.kfree(2)')], ['klass']),
               crafted([('from helper import hf as h2, hg', 'h2(1) + hg(2)'), ('from helper import HK', 'HK().hm(1)')], ['PATH:helper.py']),
               crafted([('from pkgk.sub.deep import df', 'df(1)'), ('from pkgk.sub import deep as dp', 'dp.df(2)')], ['pkgk.sub']),
+              # a plain import of the package before a from-import out of it
+              crafted([('import pkgk', 'pkgk.sf(1)'), ('from pkgk import sib', 'sib.sg(2)'), ('from pkgk.sub import deep as dp', 'dp.df(3)')], ['pkgk.sib', 'pkgk.sub.deep']),
               # look-alike selections: a name that is an imported name minus its last character(s) selects nothing
               crafted([('import helper', 'helper.hf(1)'), ('import pkgk', 'pkgk.sf(1)'), ('import other as ot', 'ot.of(1)')], ['helpe', 'pkg', 'othe']),
               crafted([('from pkgk.sub.deep import df', 'df(1)')], ['PATH:pkgk/sub']),
